@@ -1,6 +1,6 @@
 //! C05 — each kind of convention violation is reported where it occurs.
 //!
-//! Family V: every base program of the S slice x 14 violation classes x every
+//! Family V: every base program of the S slice x 16 violation classes x every
 //! admissible injection site. The oracle knows, by construction, which
 //! instruction (or operand) is the offending one.
 
@@ -11,7 +11,7 @@ use crate::model::*;
 use crate::sfam::*;
 use serde_json::{json, Value};
 
-pub const CLASSES: [&str; 14] = [
+pub const CLASSES: [&str; 16] = [
     "saved-register-overwritten",
     "sp-not-restored",
     "ra-clobbered-by-nested-call",
@@ -26,6 +26,8 @@ pub const CLASSES: [&str; 14] = [
     "jump-to-function",
     "fall-through-into-function",
     "function-on-first-line",
+    "temporary-updated-in-place-after-call",
+    "register-never-assigned-updated-in-place",
 ];
 const MAX_SITES: u64 = 10;
 
@@ -305,6 +307,42 @@ pub fn inject(sp: &SProgram, class: usize, site: usize) -> Option<Injected> {
             stmts.extend(st[f.end + 1..].iter().cloned());
             mk(stmts, 1, None, &["first-instruction-is-function"], false)
         }
+        14 => {
+            // like class 3, but the first instruction touching the temporary behind the
+            // call both reads and writes it
+            let mut sites = Vec::new();
+            for f in &spans {
+                for i in f.label + 1..=f.end {
+                    if let Stmt::Inst(_, Inst::Jal(1, _)) = &st[i] {
+                        let mut b = i;
+                        while b > f.label + 1 && matches!(&st[b - 1], Stmt::Inst(_, x) if matches!(x.dest(), Some(10) | Some(11))) {
+                            b -= 1;
+                        }
+                        if b >= after_init(sp, f) {
+                            sites.push((f.plan, b, i));
+                        }
+                    }
+                }
+            }
+            let (fp, b, c) = *sites.get(site)?;
+            let acc = acc_reg(&sp.fns[fp]);
+            let mut stmts = st.clone();
+            stmts.insert(c + 1, addi(28, 28, 1));
+            stmts.insert(c + 2, inst(Inst::R(ROp::Add, acc, acc, 28)));
+            stmts.insert(b, li(28, 5));
+            mk(stmts, c + 2, Some(2), &["invalid-use-after-call"], true)
+        }
+        15 => {
+            let (fi, p) = *all_sites.get(site)?;
+            let acc = acc_reg(&sp.fns[spans[fi].plan]);
+            mk(
+                insert(sp, p, vec![addi(29, 29, 1), inst(Inst::R(ROp::Add, acc, acc, 29))]),
+                p,
+                Some(2),
+                &["invalid-use-before-assignment", "invalid-use-after-call"],
+                true,
+            )
+        }
         _ => None,
     }
 }
@@ -466,7 +504,7 @@ impl C05 {
             .iter()
             .take_while(|s| !matches!(s, Stmt::Label(l) if l.starts_with("fn") && !l.contains('_')))
             .any(|s| matches!(s, Stmt::Inst(_, Inst::Ecall) | Stmt::Inst(_, Inst::Jal(1, _))));
-        let situation = if class == 4 {
+        let situation = if class == 4 || class == 15 {
             if after_clobber {
                 "|behind-an-ecall"
             } else if in_loop_with_clobber {
@@ -539,7 +577,7 @@ impl Property for C05 {
     }
     fn info(&self, tier: Tier) -> Info {
         Info {
-            rule: "every 17th / 2nd program of the quick S family x 14 violation classes x up to 10 admissible sites each (function, position, register chosen by the class): the injected program must draw a diagnostic with the class's error code whose raw range is exactly the offending operand or instruction (known by construction); for the dynamic classes (saved register / sp / ra not restored, temporary read after a call, register never assigned) the convention monitor must first observe the violation on an explored execution. Non-trivial = injected programs of every class but the first".into(),
+            rule: "every 17th / 2nd program of the quick S family x 16 violation classes x up to 10 admissible sites each (function, position, register chosen by the class): the injected program must draw a diagnostic with the class's error code whose raw range is exactly the offending operand or instruction (known by construction); for the dynamic classes (saved register / sp / ra not restored, temporary read after a call, register never assigned) the convention monitor must first observe the violation on an explored execution. Non-trivial = injected programs of every class but the first".into(),
             bounds: json!({"bases": self.n_bases(tier), "classes": CLASSES, "max_sites": MAX_SITES}),
             assumptions: vec!["single injections into clean bases only; an injection whose violation no explored execution shows is counted, not judged".into()],
             states_counter: "injected_programs",
